@@ -1,7 +1,379 @@
-(** C05 - placeholder obligations until PathsProofs lands. *)
-From Coq Require Import ZArith List.
-From V Require Import Base Perm PermProofs.
-Theorem C05_inverse_generator_undoes : forall (A : Type) (d : A) p (x : list A), Perm p -> length x = length p ->
-  apply_perm d (inverse_perm p) (apply_perm d p x) = x /\ apply_perm d p (apply_perm d (inverse_perm p) x) = x.
-Proof. exact @inverse_undoes. Qed.
-Print Assumptions C05_inverse_generator_undoes.
+(** C05 - Meet-in-the-middle search returns shortest paths within its stated radius. Statements only: every proof is [exact] of a lemma proved elsewhere.
+    G/Ginv: a graph instance and its inverted copy; U: the states a run touches; ball_ok G c lh: per-layer hash lists of the true layers from c;
+    dstar G A B d: d is the least length of a walk from a member of A to a member of B. NoColl = hash injective on U.
+    (Statements are the lemmas' closed types as printed by Coq, hence the qualified names.) *)
+From V Require Import Base Tensor Graph GraphProofs GraphImpl Def Paths BfsStep PathsProofs Mitm MitmProofs Interactive InteractiveProofs InteractiveBetween.
+
+(* a returned path is valid, its length is the true distance, and that distance is at most 2D *)
+Theorem C05_mitm_to_sound :
+  forall (G Ginv : impl) (U : state -> Prop),
+         closed state (acts G) U ->
+         closed state (acts Ginv) U ->
+         (forall a b : state, U a -> U b -> hashf G a = hashf G b -> a = b) ->
+         (forall s : state, hashf Ginv s = hashf G s) ->
+         length (acts Ginv) = length (acts G) ->
+         (forall (i : nat) (g gi : state -> state) (x : state),
+          List.nth_error (acts G) i = Some g ->
+          List.nth_error (acts Ginv) i = Some gi -> U x -> g (gi x) = x /\ gi (g x) = x) ->
+         (is_identity Ginv = true -> forall a : state, U a -> unword Ginv (hashf Ginv a) = a) ->
+         (inv_closed Ginv = true -> symmetric_on state (acts Ginv) U) ->
+         forall c : state,
+         U c ->
+         (forall (q : state) (k : nat),
+          BinInt.Z.lt (BinInt.Z.of_nat (length (layer state st_eq_dec (acts Ginv) (q :: nil) k)))
+            (BinNums.Zpos
+               (BinNums.xO
+                  (BinNums.xO
+                     (BinNums.xO
+                        (BinNums.xO
+                           (BinNums.xO
+                              (BinNums.xO
+                                 (BinNums.xO
+                                    (BinNums.xO
+                                       (BinNums.xO
+                                          (BinNums.xO
+                                             (BinNums.xO
+                                                (BinNums.xO
+                                                   (BinNums.xI
+                                                      (BinNums.xO
+                                                         (BinNums.xO
+                                                            (BinNums.xO
+                                                               (BinNums.xI
+                                                                  (BinNums.xO
+                                                                     (BinNums.xI
+                                                                        (BinNums.xO
+                                                                        (BinNums.xO
+                                                                        (BinNums.xI
+                                                                        (BinNums.xO
+                                                                        (BinNums.xI
+                                                                        (BinNums.xO
+                                                                        (BinNums.xO
+                                                                        (BinNums.xI
+                                                                        (BinNums.xO
+                                                                        (BinNums.xI
+                                                                        (BinNums.xO
+                                                                        (BinNums.xI
+                                                                        (BinNums.xI
+                                                                        (BinNums.xO
+                                                                        (BinNums.xO
+                                                                        (BinNums.xO
+                                                                        (BinNums.xI
+                                                                        (BinNums.xO
+                                                                        (BinNums.xI
+                                                                        (BinNums.xI BinNums.xH))))))))))))))))))))))))))))))))))))))))) ->
+         forall (lh : list (list BinNums.Z)) (ns : nat) (q : state) (p : list nat),
+         ball_ok G c lh ->
+         length lh = ns ->
+         1 <= ns ->
+         U q ->
+         mitm_find_path_to G Ginv lh ns (hashf G c) q = Ok (Some p) ->
+         run state (acts G) c p = Some q /\
+         dist_is state (acts G) (c :: nil) q (length p) /\ length p <= 2 * (ns - 1).
+Proof. exact @mitm_to_sound. Qed.
+Print Assumptions C05_mitm_to_sound.
+
+(* whenever the true distance is at most 2D a path is returned *)
+Theorem C05_mitm_to_complete :
+  forall (G Ginv : impl) (U : state -> Prop),
+         closed state (acts G) U ->
+         closed state (acts Ginv) U ->
+         (forall a b : state, U a -> U b -> hashf G a = hashf G b -> a = b) ->
+         (forall s : state, hashf Ginv s = hashf G s) ->
+         length (acts Ginv) = length (acts G) ->
+         (forall (i : nat) (g gi : state -> state) (x : state),
+          List.nth_error (acts G) i = Some g ->
+          List.nth_error (acts Ginv) i = Some gi -> U x -> g (gi x) = x /\ gi (g x) = x) ->
+         (is_identity Ginv = true -> forall a : state, U a -> unword Ginv (hashf Ginv a) = a) ->
+         (inv_closed Ginv = true -> symmetric_on state (acts Ginv) U) ->
+         forall c : state,
+         U c ->
+         (forall (q : state) (k : nat),
+          BinInt.Z.lt (BinInt.Z.of_nat (length (layer state st_eq_dec (acts Ginv) (q :: nil) k)))
+            (BinNums.Zpos
+               (BinNums.xO
+                  (BinNums.xO
+                     (BinNums.xO
+                        (BinNums.xO
+                           (BinNums.xO
+                              (BinNums.xO
+                                 (BinNums.xO
+                                    (BinNums.xO
+                                       (BinNums.xO
+                                          (BinNums.xO
+                                             (BinNums.xO
+                                                (BinNums.xO
+                                                   (BinNums.xI
+                                                      (BinNums.xO
+                                                         (BinNums.xO
+                                                            (BinNums.xO
+                                                               (BinNums.xI
+                                                                  (BinNums.xO
+                                                                     (BinNums.xI
+                                                                        (BinNums.xO
+                                                                        (BinNums.xO
+                                                                        (BinNums.xI
+                                                                        (BinNums.xO
+                                                                        (BinNums.xI
+                                                                        (BinNums.xO
+                                                                        (BinNums.xO
+                                                                        (BinNums.xI
+                                                                        (BinNums.xO
+                                                                        (BinNums.xI
+                                                                        (BinNums.xO
+                                                                        (BinNums.xI
+                                                                        (BinNums.xI
+                                                                        (BinNums.xO
+                                                                        (BinNums.xO
+                                                                        (BinNums.xO
+                                                                        (BinNums.xI
+                                                                        (BinNums.xO
+                                                                        (BinNums.xI
+                                                                        (BinNums.xI BinNums.xH))))))))))))))))))))))))))))))))))))))))) ->
+         forall (lh : list (list BinNums.Z)) (ns : nat) (q : state) (d : nat),
+         ball_ok G c lh ->
+         length lh = ns ->
+         1 <= ns ->
+         U q ->
+         List.nth 0 (List.nth 0 lh nil) BinNums.Z0 = hashf G c ->
+         dist_is state (acts G) (c :: nil) q d ->
+         d <= 2 * (ns - 1) ->
+         exists p : list nat, mitm_find_path_to G Ginv lh ns (hashf G c) q = Ok (Some p).
+Proof. exact @mitm_to_complete. Qed.
+Print Assumptions C05_mitm_to_complete.
+
+(* nothing is returned when every distance exceeds 2D (or the target is unreachable) *)
+Theorem C05_mitm_to_none :
+  forall (G Ginv : impl) (U : state -> Prop),
+         closed state (acts G) U ->
+         closed state (acts Ginv) U ->
+         (forall a b : state, U a -> U b -> hashf G a = hashf G b -> a = b) ->
+         (forall s : state, hashf Ginv s = hashf G s) ->
+         length (acts Ginv) = length (acts G) ->
+         (forall (i : nat) (g gi : state -> state) (x : state),
+          List.nth_error (acts G) i = Some g ->
+          List.nth_error (acts Ginv) i = Some gi -> U x -> g (gi x) = x /\ gi (g x) = x) ->
+         (is_identity Ginv = true -> forall a : state, U a -> unword Ginv (hashf Ginv a) = a) ->
+         (inv_closed Ginv = true -> symmetric_on state (acts Ginv) U) ->
+         forall c : state,
+         U c ->
+         (forall (q : state) (k : nat),
+          BinInt.Z.lt (BinInt.Z.of_nat (length (layer state st_eq_dec (acts Ginv) (q :: nil) k)))
+            (BinNums.Zpos
+               (BinNums.xO
+                  (BinNums.xO
+                     (BinNums.xO
+                        (BinNums.xO
+                           (BinNums.xO
+                              (BinNums.xO
+                                 (BinNums.xO
+                                    (BinNums.xO
+                                       (BinNums.xO
+                                          (BinNums.xO
+                                             (BinNums.xO
+                                                (BinNums.xO
+                                                   (BinNums.xI
+                                                      (BinNums.xO
+                                                         (BinNums.xO
+                                                            (BinNums.xO
+                                                               (BinNums.xI
+                                                                  (BinNums.xO
+                                                                     (BinNums.xI
+                                                                        (BinNums.xO
+                                                                        (BinNums.xO
+                                                                        (BinNums.xI
+                                                                        (BinNums.xO
+                                                                        (BinNums.xI
+                                                                        (BinNums.xO
+                                                                        (BinNums.xO
+                                                                        (BinNums.xI
+                                                                        (BinNums.xO
+                                                                        (BinNums.xI
+                                                                        (BinNums.xO
+                                                                        (BinNums.xI
+                                                                        (BinNums.xI
+                                                                        (BinNums.xO
+                                                                        (BinNums.xO
+                                                                        (BinNums.xO
+                                                                        (BinNums.xI
+                                                                        (BinNums.xO
+                                                                        (BinNums.xI
+                                                                        (BinNums.xI BinNums.xH))))))))))))))))))))))))))))))))))))))))) ->
+         forall (lh : list (list BinNums.Z)) (ns : nat) (q : state),
+         ball_ok G c lh ->
+         length lh = ns ->
+         1 <= ns ->
+         U q ->
+         List.nth 0 (List.nth 0 lh nil) BinNums.Z0 = hashf G c ->
+         (forall d : nat, dist_is state (acts G) (c :: nil) q d -> 2 * (ns - 1) < d) ->
+         mitm_find_path_to G Ginv lh ns (hashf G c) q = Ok None.
+Proof. exact @mitm_to_none. Qed.
+Print Assumptions C05_mitm_to_none.
+
+(* distance d <= 2D: the result is a valid path of exactly d edges *)
+Theorem C05_mitm_to_exact :
+  forall (G Ginv : impl) (U : state -> Prop),
+         closed state (acts G) U ->
+         closed state (acts Ginv) U ->
+         (forall a b : state, U a -> U b -> hashf G a = hashf G b -> a = b) ->
+         (forall s : state, hashf Ginv s = hashf G s) ->
+         length (acts Ginv) = length (acts G) ->
+         (forall (i : nat) (g gi : state -> state) (x : state),
+          List.nth_error (acts G) i = Some g ->
+          List.nth_error (acts Ginv) i = Some gi -> U x -> g (gi x) = x /\ gi (g x) = x) ->
+         (is_identity Ginv = true -> forall a : state, U a -> unword Ginv (hashf Ginv a) = a) ->
+         (inv_closed Ginv = true -> symmetric_on state (acts Ginv) U) ->
+         forall c : state,
+         U c ->
+         (forall (q : state) (k : nat),
+          BinInt.Z.lt (BinInt.Z.of_nat (length (layer state st_eq_dec (acts Ginv) (q :: nil) k)))
+            (BinNums.Zpos
+               (BinNums.xO
+                  (BinNums.xO
+                     (BinNums.xO
+                        (BinNums.xO
+                           (BinNums.xO
+                              (BinNums.xO
+                                 (BinNums.xO
+                                    (BinNums.xO
+                                       (BinNums.xO
+                                          (BinNums.xO
+                                             (BinNums.xO
+                                                (BinNums.xO
+                                                   (BinNums.xI
+                                                      (BinNums.xO
+                                                         (BinNums.xO
+                                                            (BinNums.xO
+                                                               (BinNums.xI
+                                                                  (BinNums.xO
+                                                                     (BinNums.xI
+                                                                        (BinNums.xO
+                                                                        (BinNums.xO
+                                                                        (BinNums.xI
+                                                                        (BinNums.xO
+                                                                        (BinNums.xI
+                                                                        (BinNums.xO
+                                                                        (BinNums.xO
+                                                                        (BinNums.xI
+                                                                        (BinNums.xO
+                                                                        (BinNums.xI
+                                                                        (BinNums.xO
+                                                                        (BinNums.xI
+                                                                        (BinNums.xI
+                                                                        (BinNums.xO
+                                                                        (BinNums.xO
+                                                                        (BinNums.xO
+                                                                        (BinNums.xI
+                                                                        (BinNums.xO
+                                                                        (BinNums.xI
+                                                                        (BinNums.xI BinNums.xH))))))))))))))))))))))))))))))))))))))))) ->
+         forall (lh : list (list BinNums.Z)) (ns : nat) (q : state) (d : nat),
+         ball_ok G c lh ->
+         length lh = ns ->
+         1 <= ns ->
+         U q ->
+         dist_is state (acts G) (c :: nil) q d ->
+         d <= 2 * (ns - 1) ->
+         exists p : list nat,
+           mitm_find_path_to G Ginv lh ns (hashf G c) q = Ok (Some p) /\
+           length p = d /\ run state (acts G) c p = Some q.
+Proof. exact @mitm_to_exact. Qed.
+Print Assumptions C05_mitm_to_exact.
+
+(* set-to-set: the path starts in the start set, ends in the destination set, has globally minimal length, within twice the depth limit *)
+Theorem C05_between_sound :
+  forall (G Ginv : impl) (U : state -> Prop),
+         closed state (acts G) U ->
+         closed state (acts Ginv) U ->
+         (forall a b : state, U a -> U b -> hashf G a = hashf G b -> a = b) ->
+         (forall x : state, hashf Ginv x = hashf G x) ->
+         length (acts Ginv) = length (acts G) ->
+         (forall (i : nat) (g gi : state -> state) (x : state),
+          List.nth_error (acts G) i = Some g ->
+          List.nth_error (acts Ginv) i = Some gi -> U x -> g (gi x) = x /\ gi (g x) = x) ->
+         (is_identity G = true -> forall a : state, U a -> unword G (hashf G a) = a) ->
+         (is_identity Ginv = true -> forall a : state, U a -> unword Ginv (hashf Ginv a) = a) ->
+         (inv_closed G = true -> symmetric_on state (acts G) U) ->
+         (inv_closed Ginv = true -> symmetric_on state (acts Ginv) U) ->
+         forall A B : list state,
+         (forall s : state, List.In s A -> U s) ->
+         (forall s : state, List.In s B -> U s) ->
+         forall (maxd : BinNums.N) (s : state) (p : list nat),
+         find_path_between G Ginv A B maxd = Ok (Some (s, p)) ->
+         List.In s A /\
+         (exists b : state, List.In b B /\ run state (acts G) s p = Some b) /\
+         dstar G A B (length p) /\ length p <= 2 * BinNat.N.to_nat maxd.
+Proof. exact @between_sound. Qed.
+Print Assumptions C05_between_sound.
+
+(* set-to-set: a path is returned whenever the minimum is at most twice the depth limit (length 0 when the sets intersect) *)
+Theorem C05_between_complete :
+  forall (G Ginv : impl) (U : state -> Prop),
+         closed state (acts G) U ->
+         closed state (acts Ginv) U ->
+         (forall a b : state, U a -> U b -> hashf G a = hashf G b -> a = b) ->
+         (forall x : state, hashf Ginv x = hashf G x) ->
+         length (acts Ginv) = length (acts G) ->
+         (forall (i : nat) (g gi : state -> state) (x : state),
+          List.nth_error (acts G) i = Some g ->
+          List.nth_error (acts Ginv) i = Some gi -> U x -> g (gi x) = x /\ gi (g x) = x) ->
+         (is_identity G = true -> forall a : state, U a -> unword G (hashf G a) = a) ->
+         (is_identity Ginv = true -> forall a : state, U a -> unword Ginv (hashf Ginv a) = a) ->
+         (inv_closed G = true -> symmetric_on state (acts G) U) ->
+         (inv_closed Ginv = true -> symmetric_on state (acts Ginv) U) ->
+         forall A B : list state,
+         (forall s : state, List.In s A -> U s) ->
+         (forall s : state, List.In s B -> U s) ->
+         forall (maxd : BinNums.N) (d : nat),
+         dstar G A B d ->
+         d <= 2 * BinNat.N.to_nat maxd ->
+         exists (s : state) (p : list nat), find_path_between G Ginv A B maxd = Ok (Some (s, p)).
+Proof. exact @between_complete. Qed.
+Print Assumptions C05_between_complete.
+
+(* set-to-set: nothing otherwise *)
+Theorem C05_between_none :
+  forall (G Ginv : impl) (U : state -> Prop),
+         closed state (acts G) U ->
+         closed state (acts Ginv) U ->
+         (forall a b : state, U a -> U b -> hashf G a = hashf G b -> a = b) ->
+         (forall x : state, hashf Ginv x = hashf G x) ->
+         length (acts Ginv) = length (acts G) ->
+         (forall (i : nat) (g gi : state -> state) (x : state),
+          List.nth_error (acts G) i = Some g ->
+          List.nth_error (acts Ginv) i = Some gi -> U x -> g (gi x) = x /\ gi (g x) = x) ->
+         (is_identity G = true -> forall a : state, U a -> unword G (hashf G a) = a) ->
+         (is_identity Ginv = true -> forall a : state, U a -> unword Ginv (hashf Ginv a) = a) ->
+         (inv_closed G = true -> symmetric_on state (acts G) U) ->
+         (inv_closed Ginv = true -> symmetric_on state (acts Ginv) U) ->
+         forall A B : list state,
+         (forall s : state, List.In s A -> U s) ->
+         (forall s : state, List.In s B -> U s) ->
+         forall maxd : BinNums.N,
+         (forall d : nat, dstar G A B d -> 2 * BinNat.N.to_nat maxd < d) ->
+         find_path_between G Ginv A B maxd = Ok None.
+Proof. exact @between_none. Qed.
+Print Assumptions C05_between_none.
+
+(* the step-by-step BFS computes the true layers from ANY start list (unsorted, duplicates, empty) *)
+Theorem C05_ibfs_layers :
+  forall (G : impl) (U : state -> Prop),
+         closed state (acts G) U ->
+         (forall a b : state, U a -> U b -> hashf G a = hashf G b -> a = b) ->
+         (is_identity G = true -> forall a : state, U a -> unword G (hashf G a) = a) ->
+         (inv_closed G = true -> symmetric_on state (acts G) U) ->
+         forall starts : list state,
+         (forall s : state, List.In s starts -> U s) ->
+         forall k : nat,
+         let b := ibfs_after G starts k in
+         length (ihashes b) = S k /\
+         List.NoDup (cur_layer b) /\
+         set_eq (cur_layer b) (layer state st_eq_dec (acts G) starts k) /\
+         (forall i : nat,
+          i <= k ->
+          Sorted.StronglySorted BinInt.Z.lt (List.nth i (ihashes b) nil) /\
+          (forall h : BinNums.Z,
+           List.In h (List.nth i (ihashes b) nil) <->
+           (exists t : state, List.In t (layer state st_eq_dec (acts G) starts i) /\ hashf G t = h))) /\
+         List.nth k (ihashes b) nil = List.map (hashf G) (cur_layer b).
+Proof. exact @ibfs_layers. Qed.
+Print Assumptions C05_ibfs_layers.
